@@ -490,7 +490,6 @@ class PowerAdapter(engine.Adapter):
         real = x.operating_state.name
         outcome = [out, real]
         viols = []
-        durs = "su%s:sd%s" % ("=0" if s.su == 0 else ">0", "=0" if s.sd == 0 else ">0")
         what = k if k != "api" else "api." + ev[1]
 
         # (1) lock-step power FSM
@@ -567,13 +566,13 @@ class PowerAdapter(engine.Adapter):
             down = [i for i in linked(x) if not i.enabled]
             if down:
                 viols.append(violation(
-                    "restored_when_back_on", "interface-disabled:after-%s:%s" % (what, durs),
+                    "restored_when_back_on", "interface-disabled:after-%s" % what,
                     "node is ON again after %s but linked interface(s) %s are disabled" % (list(ev), [i.port_num for i in down])))
             now = set(running(x))
             missing = [n for n in s.was_running if n not in now]
             if missing:
                 viols.append(violation(
-                    "restored_when_back_on", "%s-not-running:after-%s:%s" % (missing[0].split(":")[0], what, durs),
+                    "restored_when_back_on", "software-not-running:after-%s" % what,
                     "node is ON again after %s but %s, running when it went down, are not running" % (list(ev), missing)))
         return outcome, viols
 
@@ -643,14 +642,19 @@ def run(tier, is_known):
     t0 = time.time()
     thorough = tier == "thorough"
     if thorough:
-        # depth 24 is more than the longest shortest path to any state under this menu (the frontier empties at 13-17)
-        tb = {"computer": 240.0, "server": 240.0, "switch": 150.0, "router": 500.0, "firewall": 800.0, "wireless-router": 240.0}
-        plan = [(k, ALL_PAIRS, 24, 600000, tb[k]) for k in KINDS]
-        api_depth, api_tb = 24, 120.0
+        # depth 24 is more than the longest shortest path to any state under this menu (the frontier empties at 13-17).
+        # Expected cost (CPU-s): computer/server ~350, switch ~150, wireless ~300, router ~1500, firewall ~1800; the wall
+        # allowance is shared in these proportions and what a harness does not use is passed on (a cap is reported).
+        weight = {"computer": 1.5, "server": 1.5, "switch": 0.8, "router": 6.0, "firewall": 7.0, "wireless-router": 1.5}
+        plan = [(k, ALL_PAIRS, 24, 600000, weight[k]) for k in KINDS]
+        plan.append(("computer", ALL_PAIRS, 24, 200000, 0.2, "api"))
+        deadline = t0 + 1560.0
     else:
-        plan = [(k, pairs, d, 60000, 40.0) for k, pairs, d in QUICK_PLAN]
-        api_depth, api_tb = 7, 20.0
-    plan.append(("computer", ALL_PAIRS, api_depth, 200000, api_tb, "api"))
+        # bounded by depth (about 420 CPU-s in all); the time budgets are only a safety net on an overloaded machine
+        plan = [(k, pairs, d, 60000, 1.0) for k, pairs, d in QUICK_PLAN]
+        plan.append(("computer", ALL_PAIRS, 7, 200000, 1.0, "api"))
+        deadline = None
+    weight_left = sum(it[4] for it in plan)
     viols, per, samples, hist = [], [], [], {}
     tot = {"states": 0, "transitions": 0, "outcomes": 0}
     exhaustive = True
@@ -673,10 +677,16 @@ def run(tier, is_known):
         return r
 
     for item in plan:
-        kind, pairs, depth, budget, tb = item[:5]
+        kind, pairs, depth, budget, w = item[:5]
         mode = item[5] if len(item) > 5 else "req"
+        # two thirds of this type's share for the strict pass, the rest (plus what is left over) for the pass beneath
+        share = 120.0 if deadline is None else max(20.0, (deadline - time.time()) * w / weight_left)
+        weight_left -= w
+        t1 = time.time()
+        tb = share if deadline is None else share * 0.67
         r = one(PowerAdapter(kind, pairs, mode=mode), depth, budget, tb)
         viols += r.violations
+        tb = share if deadline is None else max(15.0, share - (time.time() - t1))
         # look beneath the one tolerable clause, only for the duration pairs in which it was violated
         hit = sorted({tuple(v["history"][0][1:]) if v["history"] else tuple(v["event"][1:])
                       for v in r.violations if v["clause"] == TOLERABLE})
@@ -695,6 +705,7 @@ def run(tier, is_known):
                        "reference power FSM was stepped on every transition and all invariants/monitors evaluated after it; the search "
                        "does not continue beneath a violating transition, the '-beneath' harnesses continue beneath the clause %s" % TOLERABLE,
         "harnesses": per, "event_histogram": hist, "distinct_outcomes": tot["outcomes"],
+        "all_frontiers_emptied": all(p["frontier_emptied"] for p in per),  # true: no unexplored state at any depth (this menu/canon)
         "violations_by_clause_signature": counts, "violations_kept_per_signature": 3,
         "node_types": KINDS, "duration_pairs": {p["adapter"]: p["params"]["pairs"] for p in per},
     }
